@@ -3,6 +3,7 @@ import Autd3.Model.Fw
 import Autd3.Lemmas.WireSend
 import Autd3.Lemmas.TupleSend
 import Autd3.Lemmas.P02ClearObs
+import Autd3.Lemmas.Tuple2CfgPairs
 /-!
 # C03 — a tuple datagram equals its parts sent in order; frames are well formed
 Theorems about `Wire.packOp` / `Wire.packOp2` (mirror of `OperationHandler::{pack_op, pack_op2}`).
@@ -311,8 +312,8 @@ PhaseCorrection, for which the statement is FALSE for the raw state — see `pha
 `rxData` cannot be added to the relation — see `tuple_rxData_counterexample`. -/
 theorem tuple_equiv_single_frame_partial (A B : Dg) (hA : IsCfg A = true) (hB : IsCfg B = true) (s : State) (t : Tx)
     (hW : P02.WF s) (ht : TxOK t) (hf : Fresh s t) :
-    (∀ t2 s2, Sends2 A B s t t2 s2 → ∃ tA sA tB sB, Sends A s t tA sA ∧ Sends B sA tA tB sB ∧ Eqv s2 sB) ∧
-    (∀ tA sA tB sB, Sends A s t tA sA → Sends B sA tA tB sB → ∃ t2 s2, Sends2 A B s t t2 s2 ∧ Eqv s2 sB) :=
+    (∀ t2 s2, Tuple.Sends2 A B s t t2 s2 → ∃ tA sA tB sB, Sends A s t tA sA ∧ Sends B sA tA tB sB ∧ Eqv s2 sB) ∧
+    (∀ tA sA tB sB, Sends A s t tA sA → Sends B sA tA tB sB → ∃ t2 s2, Tuple.Sends2 A B s t t2 s2 ∧ Eqv s2 sB) :=
   tuple_equiv_cfg A B hA hB s t hW ht hf
 
 /-- the bytes of a configuration operation do not depend on where in the frame it is packed nor on the stale
@@ -325,17 +326,13 @@ theorem cfg_bytes_translation_invariant (X : Dg) (hX : Tuple.IsCfg X = true) (n 
       ∀ i, i < Tuple.cfgLen X → Fw.u8at b' (off + i) = Fw.u8at c' (off' + i) :=
   ⟨_, _, Tuple.cfg_pack X hX n b off hb, Tuple.cfg_pack X hX n c off' hc, Tuple.cfg_ti X hX b c off off' hb hc⟩
 
-/-- **general tuples, structural part only** (`tuple_equiv` for multi-frame members is NOT proved).  Every frame
-of the tuple's send loop is one of: (i) first operation done — `pack_op` of the second, the very frame of the
-sequence; (ii) second done — `pack_op` of the first; (iii) both pending and the second does not fit behind the
-first — `pack_op` of the first alone, again the very frame of the sequence (same id, same bytes); the only frames
-that differ from the sequence's are those where both are pending and the second fits (`slot2_wellformed`).
-Missing for the full statement: for Modulation × {Gain, GainSTM, FociSTM} (and the other multi-frame pairs) the
-proof that each `write_mod` continuation frame commutes with each STM frame (frame conditions of `writeMod`,
-`writeGain`, `writeGainStm`, `writeFociStm` on all well-formed states), locality of these handlers in the payload
-and their independence of `ack`/`lastMsgId`/`rxData`/`CTL_FLAG`.  No counterexample to commutation for different
-resources was found: every cross-resource validation (`validate_silencer_settings`) reads only fields that are
-written by the BEGIN frame of the other member, which precedes it in both orders. -/
+/-- **general tuples, structural part** (the equivalence for multi-frame members is `tuple_equiv_mod_stm` /
+`tuple_equiv_stm_mod` below).  Every frame of the tuple's send loop is one of: (i) first operation done —
+`pack_op` of the second, the very frame of the sequence; (ii) second done — `pack_op` of the first; (iii) both
+pending and the second does not fit behind the first — `pack_op` of the first alone, again the very frame of the
+sequence (same id, same bytes); the only frames that differ from the sequence's are those where both are pending
+and the second fits (`slot2_wellformed`).  Named `_partial` because it is only the structural half of the
+statement. -/
 theorem tuple_frames_partial (o1 o2 : Op) (n : Nat) (t : Tx) :
     (o1.done = true → o2.done = false →
       packOp2 o1 o2 n t = match packOp o2 n t with
@@ -349,6 +346,230 @@ theorem tuple_frames_partial (o1 o2 : Op) (n : Nat) (t : Tx) :
       ¬ t'.payload.size - sz1 ≥ o2.required n → packOp2 o1 o2 n t = .ok (o1', o2, t')) :=
   ⟨Tuple.packOp2_first_done o1 o2 n t, Tuple.packOp2_second_done o1 o2 n t,
     fun h1 h2 o1' t' sz1 hp hfit => Tuple.packOp2_nofit o1 o2 n t h1 h2 o1' t' sz1 hp hfit⟩
+
+/-! ## (5) general tuples: Modulation × {Gain, FociSTM, GainSTM}, multi-frame members, both orders
+
+Machinery (`Lemmas/Tuple2*.lean`).  A datagram kind is described as a *chunk protocol* (`Tuple2.Proto`): operation
+states `opAt c`, a readiness condition for the BEGIN frame (`Ready`: well-formed state, integer-level side conditions,
+the two firmware guards), an invariant between frames (`Mid`), the final characterisation (`Done`: the C01 round-trip
+facts `ModHeld` / `GainDone` / `FociHeld` / `GHeld` relative to the state the BEGIN handler saw, the CPU latches the
+other member's strict-silencer guard reads, and the exact swap chain `Swap.set` produced), a footprint `Own` of one
+handler call and a relation `Other` under which `Mid` / `Done` are invariant.  The law `step` is proved for each of
+the four data datagrams at ANY even offset `k` that leaves room (`k = 0`: slot 1; `k` = size of the first operation:
+slot 2, with the reduced capacity and therefore different cut points), for ANY buffer that agrees with the packed
+one on the bytes the operation reported (stale bytes elsewhere are arbitrary).  The engine `Tuple2.pair_roundtrip`
+then runs `Rt.sendLoop2` (= `pack_op2` + `ecat_recv` with both slots) for two protocols whose footprints are harmless
+to each other, by induction on the units still to send, whatever the interleaving `A1 B1 A2 B2 …` is.
+Where the sides couple — each BEGIN frame's `validate_silencer_settings` reads the OTHER side's division latch
+(`mod_begin_reads_across`, `stm_begin_reads_across`) — the value read is the one the other member's BEGIN frame
+latched, which precedes it in the tuple and in the sequence alike, and which no continuation frame changes.
+
+The equivalence is OBSERVATIONAL (`Tuple2.TupleObsEq`, spelled out in `tupleObsEq_spelled_out`): every read-back
+accessor of `Model/Obs.lean` agrees.  Equality of the raw states (`Tuple.Eqv`) is FALSE for these pairs — see
+`mod_padding_counterexample`. -/
+
+/-- the pair loop of `Lemmas/TupleSend.lean` (used by `tuple_equiv_single_frame_partial`) and the one of
+`Lemmas/Rt2Slot.lean` (used by C01 and below) are the same function -/
+theorem sends2_defs_agree (A B : Dg) (s : Fw.State) (t t' : Tx) (s' : Fw.State) :
+    Tuple.Sends2 A B s t t' s' ↔ Rt.Sends2 A B s t t' s' := by
+  have h : ∀ fuel o1 o2 s t, Tuple.sendLoop2 fuel o1 o2 s t = Rt.sendLoop2 fuel o1 o2 s t := by
+    intro fuel
+    induction fuel with
+    | zero => intro o1 o2 s t; rfl
+    | succ fuel ih =>
+      intro o1 o2 s t
+      unfold Tuple.sendLoop2 Rt.sendLoop2
+      split
+      · rfl
+      · cases packOp2 o1 o2 s.numTr t with
+        | error e => rfl
+        | ok r =>
+          obtain ⟨o1', o2', t'⟩ := r
+          simp only []
+          cases Fw.ecatRecv s t'.frame with
+          | error e => rfl
+          | ok s1 => simp only [ih]
+  unfold Tuple.Sends2 Rt.Sends2
+  simp only [h]
+
+open Autd3.Fw Autd3.Rt Autd3.Tuple2 in
+/-- the side conditions `StmOK` of the second member, by kind -/
+theorem stmOK_def (s : State) :
+    (∀ seg tr drives, StmOK s (.gain seg tr drives) ↔
+      (seg ≤ 1 ∧ (tr = none ∨ ∃ v, tr = some (Drv.TRANSITION_MODE_IMMEDIATE, v)) ∧ ∀ i, rd drives i < 65536)) ∧
+    (∀ n seg tr rep div ss records, StmOK s (.fociStm n seg tr rep div ss records) ↔
+      ∃ P, FociOK s n seg tr rep div ss records P) ∧
+    (∀ mode seg tr rep div patterns, StmOK s (.gainStm mode seg tr rep div patterns) ↔
+      GOK s mode seg tr rep div patterns) :=
+  ⟨fun _ _ _ => Iff.rfl, fun _ _ _ _ _ _ _ => Iff.rfl, fun _ _ _ _ _ _ => Iff.rfl⟩
+
+open Autd3.Fw Autd3.Rt Autd3.Tuple2 in
+/-- **tuple_equiv_mod_stm** — `A` = Modulation (any size 2..65536, segment, loop count, division, transition: `ModOK`),
+`B` ∈ {Gain, FociSTM (1..8 foci, total 2..65536), GainSTM (three modes, 2..1024 patterns)} (`StmOK`).  From every
+well-formed device state `s` and every transmit buffer `t` (622-byte payload, stale content arbitrary, next id fresh):
+if `A` sent alone is accepted and ends in `(sA, tA)`, and `B` sent alone from there is accepted and ends in `(sB, tB)`,
+then the tuple `(A, B)` sent from `(s, t)` through `pack_op2` / `ecat_recv` is accepted, and its final state `s2`
+agrees with `sB` in EVERY read-back observation (`TupleObsEq`: modulation buffers / division / loop count / size of
+both segments, request and transition registers and the exact modulation swap chain; STM mode, size, division, loop
+count, sound speed, focus count and `drives_at` for every pattern of both segments, request and transition registers
+and the exact STM swap chain; phase correction, pulse-width table, silencer, debug, FPGA-state registers, CPU
+configuration, and `CTL_FLAG` — fan flag, emulated GPIO inputs).  No guard hypothesis: that the firmware guards passed is derived from acceptance. -/
+theorem tuple_equiv_mod_stm (s : State) (t : Tx) (hW : WF s) (ht : TxOK t) (hf : Fresh s t)
+    (seg : Nat) (tr : Tr) (rep div : Nat) (samples : Array Nat) (HA : ModOK s seg tr rep div samples)
+    (B : Dg) (HB : StmOK s B) (tA : Tx) (sA : State) (tB : Tx) (sB : State)
+    (hA : Sends (.modulation seg tr rep div samples) s t tA sA) (hB : Sends B sA tA tB sB) :
+    ∃ t2 s2, Sends2 (.modulation seg tr rep div samples) B s t t2 s2 ∧ WF s2 ∧ TxOK t2 ∧ Fresh s2 t2 ∧
+      TupleObsEq sB s2 :=
+  tuple_mod_stm s t hW ht hf seg tr rep div samples HA B HB tA sA tB sB hA hB
+
+open Autd3.Fw Autd3.Rt Autd3.Tuple2 in
+/-- **tuple_equiv_stm_mod** — the symmetric order: `B` (Gain / FociSTM / GainSTM) first, the Modulation second; the
+Modulation's chunks then travel in slot 2 behind `B`'s frames with reduced capacity (e.g. 104 samples behind a
+Gain, 92 / 118 behind a first / following GainSTM frame), interleaved `B1 A1 B2 A2 …` — same statement -/
+theorem tuple_equiv_stm_mod (s : State) (t : Tx) (hW : WF s) (ht : TxOK t) (hf : Fresh s t)
+    (seg : Nat) (tr : Tr) (rep div : Nat) (samples : Array Nat) (HA : ModOK s seg tr rep div samples)
+    (B : Dg) (HB : StmOK s B) (tB : Tx) (sB : State) (tA : Tx) (sA : State)
+    (hB : Sends B s t tB sB) (hA : Sends (.modulation seg tr rep div samples) sB tB tA sA) :
+    ∃ t2 s2, Sends2 B (.modulation seg tr rep div samples) s t t2 s2 ∧ WF s2 ∧ TxOK t2 ∧ Fresh s2 t2 ∧
+      TupleObsEq sA s2 :=
+  tuple_stm_mod s t hW ht hf seg tr rep div samples HA B HB tB sB tA sA hB hA
+
+open Autd3.Fw Autd3.Rt Autd3.Tuple2 in
+/-- what `TupleObsEq s s'` says, accessor by accessor (`Model/Obs.lean`) -/
+theorem tupleObsEq_spelled_out {s s' : State} (h : TupleObsEq s s') :
+    (∀ g, g ≤ 1 → Obs.modBuffer s' g = Obs.modBuffer s g ∧ Obs.modDiv s' g = Obs.modDiv s g ∧
+      Obs.modRep s' g = Obs.modRep s g ∧ Obs.modCycle s' g = Obs.modCycle s g) ∧
+    Obs.reqModSeg s' = Obs.reqModSeg s ∧ Obs.modTransition s' = Obs.modTransition s ∧ s'.modSwap = s.modSwap ∧
+    Obs.currentModSeg s' = Obs.currentModSeg s ∧ Obs.currentModIdx s' = Obs.currentModIdx s ∧
+    (∀ g, g ≤ 1 → Obs.isStmGainMode s' g = Obs.isStmGainMode s g ∧ Obs.stmCycle s' g = Obs.stmCycle s g ∧
+      Obs.stmDiv s' g = Obs.stmDiv s g ∧ Obs.stmRep s' g = Obs.stmRep s g ∧
+      Obs.soundSpeed s' g = Obs.soundSpeed s g ∧ Obs.numFoci s' g = Obs.numFoci s g ∧
+      ∀ idx, idx < Obs.stmCycle s g → Obs.drivesAt s' g idx = Obs.drivesAt s g idx) ∧
+    Obs.reqStmSeg s' = Obs.reqStmSeg s ∧ Obs.stmTransition s' = Obs.stmTransition s ∧ s'.stmSwap = s.stmSwap ∧
+    Obs.currentStmSeg s' = Obs.currentStmSeg s ∧ Obs.currentStmIdx s' = Obs.currentStmIdx s ∧
+    Obs.phaseCorrection s' = Obs.phaseCorrection s ∧ Obs.pweTable s' = Obs.pweTable s ∧
+    Obs.silencerUpdateRate s' = Obs.silencerUpdateRate s ∧ Obs.silencerCompletionSteps s' = Obs.silencerCompletionSteps s ∧
+    Obs.silencerFixedUpdateRateMode s' = Obs.silencerFixedUpdateRateMode s ∧
+    Obs.debugTypes s' = Obs.debugTypes s ∧ Obs.debugValues s' = Obs.debugValues s ∧ Obs.fpgaStateReg s' = Obs.fpgaStateReg s ∧
+    s'.strict = s.strict ∧ s'.minDivI = s.minDivI ∧ s'.minDivP = s.minDivP ∧ s'.flagsInternal = s.flagsInternal ∧
+    Obs.isForceFan s' = Obs.isForceFan s ∧ Obs.isThermo s' = Obs.isThermo s ∧ (∀ g, gpioIn s' g = gpioIn s g) := by
+  obtain ⟨r1, r2, r3, r4, r5, r6, r7, r8⟩ := obs_rest_same h.rest
+  refine ⟨h.mod.obs, h.mod.req, h.mod.transition, h.mod.swap, by unfold Obs.currentModSeg; rw [h.mod.swap],
+    by unfold Obs.currentModIdx; rw [h.mod.swap], ?_, h.stm.req, h.stm.transition, h.stm.swap,
+    by unfold Obs.currentStmSeg; rw [h.stm.swap], by unfold Obs.currentStmIdx; rw [h.stm.swap],
+    r1, r2, r3, r4, r5, r6, r7, r8, h.rest.cpu.1, h.rest.cpu.2.1, h.rest.cpu.2.2.1, h.rest.cpu.2.2.2.2.2.1,
+    by unfold Obs.isForceFan; rw [h.ctlFlag], by unfold Obs.isThermo; unfold Obs.fpgaStateReg at r8; rw [r8],
+    fun g => by unfold gpioIn; rw [h.ctlFlag]⟩
+  intro g hg
+  obtain ⟨a, b, c, d⟩ := h.stm.hdr g hg
+  obtain ⟨e, f⟩ := h.stm.foci g hg
+  exact ⟨a, b, c, d, e, f, h.stm.drives g hg⟩
+
+open Autd3.Fw Autd3.Rt Autd3.Tuple2 in
+/-- **what the Modulation's BEGIN frame reads across sides** (`writeMod_reads_only_mod_side`, BEGIN part): its
+acceptance (`Ready` = well-formed, `ModOK`, `validate_transition_mode`, `validate_silencer_settings`) on a state `x`
+follows from its acceptance on `y` as soon as `x` is well formed and agrees with `y` on the current modulation
+segment, on the division latch of the CURRENT STM segment, on the silencer configuration and on the clock — nothing
+else of the STM side is read -/
+theorem mod_begin_reads_across (seg : Nat) (tr : Tr) (rep div : Nat) (samples : Array Nat) {y x : State}
+    (h : (modProto seg tr rep div samples).Ready y) (hW : WF x) (h1 : x.modSegment = y.modSegment)
+    (h2 : sel x.stmDiv x.stmSegment = sel y.stmDiv y.stmSegment) (h3 : x.strict = y.strict)
+    (h4 : x.minDivI = y.minDivI) (h5 : x.minDivP = y.minDivP) (h6 : x.dcSysTime = y.dcSysTime) :
+    (modProto seg tr rep div samples).Ready x :=
+  modReady_congr seg tr rep div samples h hW h1 h2 h3 h4 h5 h6
+
+open Autd3.Fw Autd3.Rt Autd3.Tuple2 in
+/-- **the Modulation's frames after BEGIN read nothing of the STM side, and nothing of it is written by any of its
+frames** (`writeMod_reads_only_mod_side`, continuation part): the invariant between two Modulation frames (`Mid`: `c`
+samples in place, write registers behind them, latches) and the final characterisation (`Done`) carry over to every
+well-formed state that agrees on the modulation side (`KeepM`: both modulation memories, the modulation swap chain,
+the CPU's modulation latches, registers 32..45, clock, transducer count) — e.g. the state after any STM-side frame;
+and one `write_mod` call on ANY payload leaves the whole STM side as it was (`KeepS`) -/
+theorem mod_frames_ignore_stm_side (seg : Nat) (tr : Tr) (rep div : Nat) (samples : Array Nat)
+    (hn2 : 2 ≤ samples.size) (hn3 : samples.size ≤ 65536) :
+    (∀ s0 s s' c, (modProto seg tr rep div samples).Mid s0 s c → KeepM s s' → WF s' →
+      (modProto seg tr rep div samples).Mid s0 s' c) ∧
+    (∀ s0 s s', (modProto seg tr rep div samples).Done s0 s → KeepM s s' → WF s' →
+      (modProto seg tr rep div samples).Done s0 s') ∧
+    (∀ (s : State) (d : Array Nat) s' a, WF s → writeMod s d = .ok (s', a) → KeepS s s') :=
+  ⟨(modProto_laws seg tr rep div samples hn2 hn3).mid_other, (modProto_laws seg tr rep div samples hn2 hn3).done_other,
+    fun s d s' a hW h => KeepS_of_footM (writeMod_foot s d hW.ctl hW.flags s' a h)⟩
+
+open Autd3.Fw Autd3.Rt Autd3.Tuple2 in
+/-- **the STM-side handlers, symmetrically**: acceptance of a FociSTM / GainSTM BEGIN frame depends on the modulation
+side only through the division latch of the current modulation segment (and the silencer configuration, the clock,
+the current STM segment); their invariants survive every modulation-side change (`KeepS` kept); one handler call on
+ANY payload leaves the whole modulation side as it was (`KeepM`) -/
+theorem stm_begin_reads_across {P : Proto} {Ld : State → Nat × Nat} {Ls : State → Nat} (K : SKind P Ld Ls) :
+    (∀ y x, P.Ready y → WF x → x.stmSegment = y.stmSegment →
+      sel x.modDiv x.modSegment = sel y.modDiv y.modSegment → x.strict = y.strict → x.minDivI = y.minDivI →
+      x.minDivP = y.minDivP → x.dcSysTime = y.dcSysTime → P.Ready x) ∧
+    (∀ s0 s s' c, P.Mid s0 s c → KeepS s s' → WF s' → P.Mid s0 s' c) ∧
+    (∀ s0 s s', P.Done s0 s → KeepS s s' → WF s' → P.Done s0 s') ∧
+    (∀ (s : State) (d : Array Nat) s' a, WF s →
+      (writeGain s d = .ok (s', a) ∨ (u8at d FwLayout.FociSTMSubseq_segment_off ≤ 1 ∧ writeFociStm s d = .ok (s', a)) ∨
+        writeGainStm s d = .ok (s', a)) → KeepM s s') := by
+  refine ⟨K.readyCongr, fun s0 s s' c h k w => K.laws.mid_other s0 s s' c h (K.other _ _ k) w,
+    fun s0 s s' h k w => K.laws.done_other s0 s s' h (K.other _ _ k) w, ?_⟩
+  intro s d s' a hW h
+  rcases h with h | ⟨hseg, h⟩ | h
+  · exact KeepM_of_footS ((writeGain_foot s d hW.ctl hW.flags s' a h).mono TG_TS)
+  · exact KeepM_of_footS ((writeFociStm_foot s d hW.ctl hW.flags s' a h).mono (TF_TS _ hseg))
+  · exact KeepM_of_footS ((writeGainStm_foot s d hW.ctl hW.flags s' a h).mono TG_TS)
+
+open Autd3.Tuple2 in
+/-- the three STM-side protocols are such `SKind`s -/
+theorem stm_kinds :
+    (∀ seg tr drives, seg ≤ 1 → (tr = none ∨ ∃ v, tr = some (Drv.TRANSITION_MODE_IMMEDIATE, v)) →
+      ∃ Ld Ls, SKind (gainProto seg tr drives) Ld Ls) ∧
+    (∀ n seg tr rep div ss records P, (1 ≤ n ∧ n ≤ 8) → records.size = P * n → (2 ≤ P * n ∧ P * n ≤ 65536) →
+      ∃ Ld Ls, SKind (fociProto n seg tr rep div ss records P) Ld Ls) ∧
+    (∀ mode seg tr rep div patterns, mode ≤ 2 → (2 ≤ patterns.size ∧ patterns.size ≤ 1024) →
+      ∃ Ld Ls, SKind (gstmProto mode seg tr rep div patterns) Ld Ls) :=
+  ⟨fun seg tr drives h1 h2 => ⟨_, _, gainKind seg tr drives h1 h2⟩,
+    fun n seg tr rep div ss records P h1 h2 h3 => ⟨_, _, fociKind n seg tr rep div ss records P h1 h2 h3⟩,
+    fun mode seg tr rep div patterns h1 h2 => ⟨_, _, gstmKind mode seg tr rep div patterns h1 h2⟩⟩
+
+/-! ## (6) configuration × data datagram, both orders -/
+
+open Autd3.Fw Autd3.Rt Autd3.Tuple2 in
+/-- the side conditions `DataOK` of a data datagram: `ModOK` for a Modulation, `StmOK` for Gain / FociSTM / GainSTM -/
+theorem dataOK_def (s : State) :
+    (∀ seg tr rep div samples, DataOK s (.modulation seg tr rep div samples) ↔ ModOK s seg tr rep div samples) ∧
+    (∀ seg tr drives, DataOK s (.gain seg tr drives) ↔ StmOK s (.gain seg tr drives)) ∧
+    (∀ n seg tr rep div ss records, DataOK s (.fociStm n seg tr rep div ss records) ↔
+      StmOK s (.fociStm n seg tr rep div ss records)) ∧
+    (∀ mode seg tr rep div patterns, DataOK s (.gainStm mode seg tr rep div patterns) ↔
+      StmOK s (.gainStm mode seg tr rep div patterns)) :=
+  ⟨fun _ _ _ _ _ => Iff.rfl, fun _ _ _ => Iff.rfl, fun _ _ _ _ _ _ _ => Iff.rfl, fun _ _ _ _ _ _ => Iff.rfl⟩
+
+open Autd3.Fw Autd3.Rt Autd3.Tuple2 in
+/-- **tuple_equiv_cfg_data** — `X` one of the nine single-frame configuration datagrams of
+`tuple_equiv_single_frame_partial` (`IsCfg`: Synchronize, ForceFan, ReadsFPGAState, CpuGPIOOut, EmulateGPIOIn,
+GPIOOutputs, pulse-width table, Silencer fixed-completion-steps — strict or not —, Silencer fixed-update-rate), `D` one
+of the four data datagrams (Modulation, Gain, FociSTM, GainSTM; `DataOK`), every well-formed state, every transmit
+buffer: if `X` alone then `D` alone are accepted, the tuple `(X, D)` is accepted and the final states agree in every
+observation.  `D`'s first chunk travels in slot 2 behind `X` with reduced capacity, its later chunks alone.
+**Silencer × data**: the strict-mode guard of `D`'s BEGIN frame reads the silencer configuration that `X`'s handler has
+just written, in the tuple (slot 2 of the same frame) exactly as in the sequence (next frame) — no counterexample. -/
+theorem tuple_equiv_cfg_data (X : Dg) (hX : Tuple.IsCfg X = true) (s : State) (t : Tx) (hW : WF s) (ht : TxOK t)
+    (hf : Fresh s t) (D : Dg) (HD : DataOK s D) (tA : Tx) (sA : State) (tB : Tx) (sB : State)
+    (hA : Sends X s t tA sA) (hB : Sends D sA tA tB sB) :
+    ∃ t2 s2, Sends2 X D s t t2 s2 ∧ WF s2 ∧ TxOK t2 ∧ Fresh s2 t2 ∧ TupleObsEq sB s2 :=
+  tuple_cfg_data X hX s t hW ht hf D HD tA sA tB sB hA hB
+
+open Autd3.Fw Autd3.Rt Autd3.Tuple2 in
+/-- **tuple_equiv_data_cfg** — the symmetric order `(D, X)`: the configuration datagram travels in slot 2 behind `D`'s
+first frame that leaves room (frame 1 for a Modulation: `A1 X A2 A3 …` against `A1 A2 … X` in the sequence), so its
+handler runs BEFORE `D`'s remaining frames.  Same statement.  **data × Silencer**: `config_silencer` validates the new
+setting against the division latches of the current segments; `D`'s BEGIN frame — which precedes `X` in both orders —
+is the only frame that writes them, so both orders validate against the same values (and `D`'s later frames do not
+re-validate) — no counterexample. -/
+theorem tuple_equiv_data_cfg (X : Dg) (hX : Tuple.IsCfg X = true) (s : State) (t : Tx) (hW : WF s) (ht : TxOK t)
+    (hf : Fresh s t) (D : Dg) (HD : DataOK s D) (tA : Tx) (sA : State) (tB : Tx) (sB : State)
+    (hA : Sends D s t tA sA) (hB : Sends X sA tA tB sB) :
+    ∃ t2 s2, Sends2 D X s t t2 s2 ∧ WF s2 ∧ TxOK t2 ∧ Fresh s2 t2 ∧ TupleObsEq sB s2 :=
+  tuple_data_cfg X hX s t hW ht hf D HD tA sA tB sB hA hB
 
 /-! ### what the equivalence cannot include -/
 
@@ -387,6 +608,20 @@ theorem phaseCorr_padding_counterexample :
     pcOf (ecatRecv {} (#[1, 0, 2, 0, 0x60, 1, 0x80, 0] ++ Array.replicate 249 7 ++ #[0x00])) 124 = some (1, 0x0007) := by
   decide +kernel
 
+set_option maxRecDepth 100000 in
+open Autd3.Fw Autd3.Tuple2 in
+/-- **why `tuple_equiv_mod_stm` is observational and not `Tuple.Eqv`**: a Modulation of odd length travels padded to a
+whole 16-bit word; `pack` does not write the pad byte (it keeps whatever the transmit buffer held there — in the tuple
+the other member's bytes of an earlier frame, in the sequence older content), and `write_mod` copies whole words.  Two
+single-frame modulations `[id 1 | Modulation BEGIN+END, 3 samples 7 8 9, division 10 | pad]` that differ only in the
+pad byte (0xAB / 0x00) are both acknowledged and leave different words at index 1 of the modulation memory (high
+byte = sample 3, which the cycle register — 3 samples — excludes: not observable through `modulation_buffer`, but the
+raw states differ) -/
+theorem mod_padding_counterexample :
+    mmOf (ecatRecv {} #[1, 0, 0, 0, 16, 3, 3, 254, 10, 0, 255, 255, 0, 0, 0, 0, 0, 0, 0, 0, 7, 8, 9, 0xAB]) 1 = some (1, 0xAB09) ∧
+    mmOf (ecatRecv {} #[1, 0, 0, 0, 16, 3, 3, 254, 10, 0, 255, 255, 0, 0, 0, 0, 0, 0, 0, 0, 7, 8, 9, 0x00]) 1 = some (1, 0x0009) := by
+  decide +kernel
+
 /-! ### non-vacuity of (4) -/
 
 /-- a well-formed device state (a device right after `CPUEmulator::new`), a 622-byte transmit buffer and a fresh
@@ -416,5 +651,132 @@ example : (Dg.gain 1 (some (255, 0)) (Array.replicate 249 0x80FF)).Valid := by
   intro m v h; cases h; rfl
 example : (Dg.fociStm 8 0 none 0xFFFF 4000 340 (Array.replicate 800 5)).Valid := by
   simp [Dg.Valid, Drv.FOCI_STM_FOCI_NUM_MAX, Drv.STM_BUF_SIZE_MIN, Drv.FOCI_STM_BUF_SIZE_MAX]
+
+/-! ### non-vacuity of (5) and (6): concrete multi-frame instances on the power-on-like state -/
+
+section
+open Autd3.Fw Autd3.Rt Autd3.Tuple2
+
+private theorem exA_ok : ModOK exState 1 (some (0, 0)) 3 5120 (Array.replicate 1000 7) := by
+  refine ⟨by decide, by simp, by simp, ?_, by decide, by decide, ?_⟩
+  · intro i; unfold rd; by_cases h : i < 1000 <;> simp [h]
+  · intro m v h
+    simp only [Option.some.injEq, Prod.mk.injEq] at h
+    obtain ⟨rfl, rfl⟩ := h
+    exact ⟨Or.inl rfl, by decide, by decide⟩
+
+private theorem exF_ok : FociOK exState 3 1 (some (2, 1)) 5 512 340 (Array.replicate 900 12345) 300 := by
+  refine ⟨by decide, by decide, by simp, by decide, ?_, by decide, by decide, by decide, ?_⟩
+  · intro i; unfold rd; by_cases h : i < 900 <;> simp [h]
+  · intro m v h
+    simp only [Option.some.injEq, Prod.mk.injEq] at h
+    obtain ⟨rfl, rfl⟩ := h
+    exact ⟨Or.inr (Or.inr (Or.inl ⟨rfl, by decide⟩)), by decide, by decide⟩
+
+private theorem exG_ok : GOK exState 2 0 none 0xFFFF 4000 (Array.replicate 7 (Array.replicate 249 0x1234)) := by
+  refine ⟨by decide, by decide, by simp, ?_, by decide, by decide, by intro m v h; simp at h⟩
+  intro idx i
+  unfold patAt rd
+  by_cases h : idx < 7
+  · simp [h]; by_cases h2 : i < 249 <;> simp [h2]
+  · simp [h]; show (#[] : Array Nat)[i]?.getD 0 < 65536; simp
+
+/-- the modulation's BEGIN handler is ready on every well-formed state that has the power-on defaults in the fields
+the two guards read -/
+private theorem exA_ready (x : State) (hW : WF x) (h1 : x.modSegment = 0) (h2 : sel x.stmDiv x.stmSegment ≥ 40)
+    (h3 : x.minDivI = 10) (h4 : x.minDivP = 40) (h5 : x.dcSysTime = 0) :
+    (modProto 1 (some (0, 0)) 3 5120 (Array.replicate 1000 7)).Ready x := by
+  rw [modProto_ready]
+  refine ⟨hW, ModOK_time exA_ok (by rw [h5]; rfl), by rw [h1]; decide, ?_⟩
+  unfold validateSilencerSettings
+  rw [h3, h4]
+  generalize sel x.stmDiv x.stmSegment = d at h2
+  cases x.strict <;> simp <;> omega
+
+/-- (5), order (Modulation, FociSTM): a 1000-sample Modulation (3 frames alone) to segment 1 with a SyncIdx transition,
+then a 300-pattern × 3-foci FociSTM (13 frames alone) to segment 1 with a GPIO transition: both are accepted one after
+the other from the power-on-like state, so `tuple_equiv_mod_stm` applies; in the tuple the FociSTM's first chunk
+travels behind the Modulation's first frame (capacity 352 bytes: 13 patterns instead of 24) -/
+example : ∃ tA sA tB sB, ModOK exState 1 (some (0, 0)) 3 5120 (Array.replicate 1000 7) ∧
+    StmOK exState (.fociStm 3 1 (some (2, 1)) 5 512 340 (Array.replicate 900 12345)) ∧
+    Sends (.modulation 1 (some (0, 0)) 3 5120 (Array.replicate 1000 7)) exState exTx tA sA ∧
+    Sends (.fociStm 3 1 (some (2, 1)) 5 512 340 (Array.replicate 900 12345)) sA tA tB sB ∧
+    ∃ t2 s2, Sends2 (.modulation 1 (some (0, 0)) 3 5120 (Array.replicate 1000 7))
+      (.fociStm 3 1 (some (2, 1)) 5 512 340 (Array.replicate 900 12345)) exState exTx t2 s2 ∧ TupleObsEq sB s2 := by
+  obtain ⟨p1, p2, p3, _, _, p6, p7, p8, _, _⟩ := pre_fields exState (nextId exTx)
+  have hRA := exA_ready (pre exState (nextId exTx)) (WF_pre WF_exState _) (by rw [p3]; rfl) (by rw [p2, p1]; decide)
+    (by rw [p6]; rfl) (by rw [p7]; rfl) (by rw [p8]; rfl)
+  obtain ⟨tA, sA, hSA, hWA, hTA, hFA, kR, kS, l1, l2⟩ := sends_of_ready_mod exState exTx WF_exState TxOK_exTx Fresh_ex 1
+    (some (0, 0)) 3 5120 (Array.replicate 1000 7) (by simp) (by simp) hRA
+  obtain ⟨q1, _, q3, q4, q5, q6, q7, q8, _, _⟩ := pre_fields sA (nextId tA)
+  have hRB : (fociProto 3 1 (some (2, 1)) 5 512 340 (Array.replicate 900 12345) 300).Ready (pre sA (nextId tA)) := by
+    rw [fociProto_ready]
+    refine ⟨WF_pre hWA _, FociOK_time exF_ok (by rw [q8, kR.time]), by rw [q1, kS.segment]; decide, ?_⟩
+    unfold validateSilencerSettings
+    rw [q3, q4, q5, q6, q7, l1, l2, kR.strict, kR.minDivI, kR.minDivP]
+    decide
+  obtain ⟨tB, sB, hSB, _⟩ := sends_of_ready_kind (fociKind 3 1 (some (2, 1)) 5 512 340 (Array.replicate 900 12345) 300
+    exF_ok.hn exF_ok.size exF_ok.total) sA tA hWA hTA hFA hRB
+  obtain ⟨t2, s2, h2, _, _, _, h6⟩ := tuple_equiv_mod_stm exState exTx WF_exState TxOK_exTx Fresh_ex 1 (some (0, 0)) 3 5120
+    (Array.replicate 1000 7) exA_ok (.fociStm 3 1 (some (2, 1)) 5 512 340 (Array.replicate 900 12345)) ⟨300, exF_ok⟩ tA sA tB sB hSA hSB
+  exact ⟨tA, sA, tB, sB, exA_ok, ⟨300, exF_ok⟩, hSA, hSB, t2, s2, h2, h6⟩
+
+/-- (5), order (GainSTM, Modulation): a 7-pattern PhaseHalf GainSTM (2 frames) to segment 0, then the 1000-sample
+Modulation; in the tuple the Modulation's chunks travel behind the GainSTM frames (92 and 118 samples), then alone -/
+example : ∃ tB sB tA sA, StmOK exState (.gainStm 2 0 none 0xFFFF 4000 (Array.replicate 7 (Array.replicate 249 0x1234))) ∧
+    Sends (.gainStm 2 0 none 0xFFFF 4000 (Array.replicate 7 (Array.replicate 249 0x1234))) exState exTx tB sB ∧
+    Sends (.modulation 1 (some (0, 0)) 3 5120 (Array.replicate 1000 7)) sB tB tA sA ∧
+    ∃ t2 s2, Sends2 (.gainStm 2 0 none 0xFFFF 4000 (Array.replicate 7 (Array.replicate 249 0x1234)))
+      (.modulation 1 (some (0, 0)) 3 5120 (Array.replicate 1000 7)) exState exTx t2 s2 ∧ TupleObsEq sA s2 := by
+  obtain ⟨p1, _, p3, p4, p5, p6, p7, p8, _, _⟩ := pre_fields exState (nextId exTx)
+  have hRB : (gstmProto 2 0 none 0xFFFF 4000 (Array.replicate 7 (Array.replicate 249 0x1234))).Ready (pre exState (nextId exTx)) := by
+    rw [gstmProto_ready]
+    refine ⟨WF_pre WF_exState _, GOK_time exG_ok (by rw [p8]), by rw [p1]; decide, ?_⟩
+    unfold validateSilencerSettings
+    rw [p3, p4, p5, p6, p7]
+    decide
+  have K := gstmKind 2 0 none 0xFFFF 4000 (Array.replicate 7 (Array.replicate 249 0x1234)) exG_ok.hmode exG_ok.size
+  obtain ⟨tB, sB, hSB, hWB, hTB, hFB, kR, kM, l1, l2⟩ := sends_of_ready_kind K exState exTx WF_exState TxOK_exTx Fresh_ex hRB
+  obtain ⟨q1, q2, q3, _, _, q6, q7, q8, _, _⟩ := pre_fields sB (nextId tB)
+  have hRA := exA_ready (pre sB (nextId tB)) (WF_pre hWB _) (by rw [q3, kM.segment]; rfl)
+    (by rw [q2, q1, l1, l2]; decide) (by rw [q6, kR.minDivI]; rfl) (by rw [q7, kR.minDivP]; rfl) (by rw [q8, kR.time]; rfl)
+  obtain ⟨tA, sA, hSA, _⟩ := sends_of_ready_mod sB tB hWB hTB hFB 1 (some (0, 0)) 3 5120 (Array.replicate 1000 7)
+    (by simp) (by simp) hRA
+  obtain ⟨t2, s2, h2, _, _, _, h6⟩ := tuple_equiv_stm_mod exState exTx WF_exState TxOK_exTx Fresh_ex 1 (some (0, 0)) 3 5120
+    (Array.replicate 1000 7) exA_ok (.gainStm 2 0 none 0xFFFF 4000 (Array.replicate 7 (Array.replicate 249 0x1234))) exG_ok tB sB tA sA hSB hSA
+  exact ⟨tB, sB, tA, sA, exG_ok, hSB, hSA, t2, s2, h2, h6⟩
+
+/-- (6), Silencer × Modulation: a strict Silencer (10, 40) in slot 1, the 1000-sample Modulation behind it -/
+example : ∃ tA sA tB sB, Tuple.IsCfg (.silencerSteps 10 40 true) = true ∧
+    DataOK exState (.modulation 1 (some (0, 0)) 3 5120 (Array.replicate 1000 7)) ∧
+    Sends (.silencerSteps 10 40 true) exState exTx tA sA ∧
+    Sends (.modulation 1 (some (0, 0)) 3 5120 (Array.replicate 1000 7)) sA tA tB sB ∧
+    ∃ t2 s2, Sends2 (.silencerSteps 10 40 true) (.modulation 1 (some (0, 0)) 3 5120 (Array.replicate 1000 7)) exState exTx t2 s2 ∧
+      TupleObsEq sB s2 := by
+  obtain ⟨p1, p2, p3, p4, _⟩ := pre_fields exState (nextId exTx)
+  have hX : Tuple.IsCfg (.silencerSteps 10 40 true) = true := rfl
+  have hRX : (cfgProto (.silencerSteps 10 40 true)).Ready (pre exState (nextId exTx)) := by
+    rw [cfgProto_ready]
+    refine ⟨WF_pre WF_exState _, rfl, ?_⟩
+    unfold CfgAccepts
+    rw [cfgRejects_congr (.silencerSteps 10 40 true) (y := exState) ⟨p2, p1, p4, p3⟩]
+    decide
+  obtain ⟨tA, sA, hSA, hWA, hTA, hFA, hOA, hDA⟩ := single_roundtrip (cfgProto_laws _ hX) exState exTx WF_exState TxOK_exTx
+    Fresh_ex hRX
+  have hOA' : KeepM exState sA ∧ KeepS exState sA := hOA
+  obtain ⟨_, s1, h1, k1⟩ := cfgProto_done _ hDA
+  obtain ⟨_, _, _, _, _, _, hsil, _⟩ := cfg_handler_keeps _ hX (WF_pre WF_exState _) h1
+  obtain ⟨_, e2, e3⟩ := hsil 10 40 true rfl
+  obtain ⟨q1, q2, q3, _, _, q6, q7, q8, _, _⟩ := pre_fields sA (nextId tA)
+  have hRA := exA_ready (pre sA (nextId tA)) (WF_pre hWA _) (by rw [q3, hOA'.1.segment]; rfl)
+    (by rw [q2, q1, hOA'.2.div, hOA'.2.segment]; decide) (by rw [q6, k1.minDivI, e2]) (by rw [q7, k1.minDivP, e3])
+    (by rw [q8, hOA'.1.time]; rfl)
+  obtain ⟨tB, sB, hSB, _⟩ := sends_of_ready_mod sA tA hWA hTA hFA 1 (some (0, 0)) 3 5120 (Array.replicate 1000 7)
+    (by simp) (by simp) hRA
+  obtain ⟨t2, s2, h2, _, _, _, h6⟩ := tuple_equiv_cfg_data _ hX exState exTx WF_exState TxOK_exTx Fresh_ex
+    (.modulation 1 (some (0, 0)) 3 5120 (Array.replicate 1000 7)) exA_ok tA sA tB sB hSA hSB
+  exact ⟨tA, sA, tB, sB, rfl, exA_ok, hSA, hSB, t2, s2, h2, h6⟩
+
+end
 
 end Autd3.C03
